@@ -187,8 +187,24 @@ def parse_track(ctx, res: int, tempo, lines: list[str], header: str, rc, fmt: in
     k = zlib.crc32("\n".join(lines[:40]).encode()) >> 7
     text = chart_text(res, tempo, secs, events=_global_events(lines), fmt=fmt, strays=strays,
                       extra=k if k % 3 else 0)
+    # how the chart is parsed cannot matter to the section under test either: no selection (half of the
+    # cases), every section of the file selected (several instruments in one selection), or the target
+    # plus a pair the file lacks; given as a list or a tuple
+    want = None
+    sel = (k >> 4) % 6
+    if sel >= 3:
+        def pair(h):
+            iname, dname = S.HEADERS[h]
+            return (L.Instrument[iname], L.Difficulty[dname])
+        if sel == 3:
+            want = [pair(h) for h in secs]
+        elif sel == 4:
+            want = tuple(pair(h) for h in reversed(list(secs)))
+        else:
+            absent = next(h for h in S.HEADER_LIST[(k >> 8) % 40:] + S.HEADER_LIST if h not in secs)
+            want = [pair(absent), pair(header)]
     try:
-        chart = L.parse(text)
+        chart = L.parse(text, want)
     except Exception as e:  # noqa: BLE001
         ctx.fail("chart-parses", f"well-formed instrument section rejected: {type(e).__name__}: {e}", rc)
         return None, None
